@@ -30,6 +30,10 @@ def _cases(tier):
                         out.append(dict(impl='threading', n=n, threads=threads, chunksize=chunksize, sort=True, gen=False, total=None, raise_idx=ridx))
             for gen in (False, True):
                 out.append(dict(impl='iter', n=n, threads=threads, chunksize=None, sort=True, gen=gen, total=None, raise_idx=None))
+            if n:
+                # f RETURNS exception instances (values like any other)
+                out.append(dict(impl='threading', n=n, threads=threads, chunksize=2, sort=True, gen=False, total=None, raise_idx=None, ret_exc=True))
+                out.append(dict(impl='iter', n=n, threads=threads, chunksize=None, sort=True, gen=False, total=None, raise_idx=None, ret_exc=True))
             for ridx in range(n):
                 out.append(dict(impl='iter', n=n, threads=threads, chunksize=None, sort=True, gen=False, total=None, raise_idx=ridx))
     return out
@@ -80,9 +84,15 @@ def _run_case(case):
         xs[ridx] = 100 + ridx
     raise_at = xs[ridx] if ridx is not None else None
     expected = [('r', x) for x in xs]
+    ret_exc = case.get('ret_exc')
     h = _harness(case['impl'])
 
-    def call(f):
+    def call(f0):
+        f = f0
+        if ret_exc:
+            def f(x):  # noqa
+                r = f0(x)
+                return _EXC.setdefault(x, ValueError(x)) if x % 2 else r
         data = (x for x in xs) if case['gen'] else list(xs)
         if case['impl'] == 'threading':
             return th.parallel_map(f, data, threads=threads, sort=case['sort'], use_tqdm=True, total=case['total'], chunksize=cs)
@@ -107,10 +117,11 @@ def _run_case(case):
             if raise_at is not None and x == raise_at:
                 from tcv.gates import Raise
                 raise Raise(x)
-            return ('r', x)
+            return _EXC.setdefault(x, ValueError(x)) if (ret_exc and x % 2) else ('r', x)
         out = {}
         try:
-            out['result'] = call(f)
+            out['result'] = th.parallel_map(f, (x for x in xs) if case['gen'] else list(xs), threads=1, sort=case['sort'], use_tqdm=True, total=case['total'], chunksize=cs) \
+                if case['impl'] == 'threading' else it.parallel_map(f, (x for x in xs) if case['gen'] else list(xs), threads=1)
         except Exception as e:  # noqa
             out['exc'] = (type(e).__name__, e.args[0] if e.args else None)
         out['calls'] = calls
@@ -132,6 +143,19 @@ def _run_case(case):
                 signature=f'parallel_map[{case["impl"]}] {kind}',
                 what=f'case={case} xs={xs} choices={[p[1] for p in out["points"]]}: {msg}',
                 case={'kind': 'pmap', 'case': case, 'choices': [p[1] for p in out['points']]}))
+    if raise_at is not None:
+        # cross-call state: after a call that propagated an exception, an ordinary call with the same thread count works
+        try:
+            xs2 = [7, 5, 6]
+            r2 = th.parallel_map(lambda x: ('again', x), xs2, threads=threads, use_tqdm=True, chunksize=2) if case['impl'] == 'threading' else it.parallel_map(lambda x: ('again', x), xs2, threads=threads)
+            ok2 = r2 == [('again', x) for x in xs2]
+            msg2 = repr(r2)
+        except Exception as e:  # noqa
+            ok2, msg2 = False, f'{type(e).__name__}: {e}'
+        res.add('evaluations')
+        if not ok2:
+            res.violations.append(Violation(f'parallel_map[{case["impl"]}] call after a failed call is broken', f'case={case}: a later ordinary call with threads={threads} gave {msg2}',
+                                            {'kind': 'pmap', 'case': case, 'choices': []}))
     res.coverage['schedules_by_case'] = {}
     res.add('distinct_nontrivial', len(orders) if len(orders) > 1 else 0)
     res.add('states', len(orders))
@@ -140,8 +164,13 @@ def _run_case(case):
     return res
 
 
+_EXC = {}
+
+
 def _judge(case, xs, expected, raise_at, out):
     n = len(xs)
+    if case.get('ret_exc'):
+        expected = [(_EXC.setdefault(x, ValueError(x)) if x % 2 else e) for x, e in zip(xs, expected)]
     if raise_at is not None:
         if 'exc' not in out:
             return 'exception-lost', f'element {raise_at} raises but the call returned {out.get("result")!r}'
